@@ -3,6 +3,8 @@ import Hgxv.Model.C06
 import Hgxv.Model.C06Hif
 import Hgxv.Model.C06Text
 import Hgxv.Model.C06Str
+import Hgxv.Model.C06Json
+import Hgxv.Model.C06HgrText
 /-! Line protocol for C06.  State: the current content (any of the four types) and a record list.
   metadata   `-` | `k=v,...`   k: w t l u<n>   v: p<n> (pool token) q<int> (weight quanta) t<n> l<n>
   node list  `1.2.3` | `_`     directed interaction `1.2>3`
@@ -21,7 +23,16 @@ import Hgxv.Model.C06Str
   `str_enc cps`   cps = code points `1,2,3` | `-`   -> `units;back`  units = the string literal `json.dump` writes
               (ensure_ascii), back = what the reader makes of it again (code points) or rej
   `str_raw cps`   -> the literal of the `ensure_ascii=False` variant
-  `str_dec units` -> code points the reader makes of the literal `units` | rej -/
+  `str_dec units` -> code points the reader makes of the literal `units` | rej
+  `num i`         i = a decimal integer -> `units;back`  units = `Num.encInt i`, back = `Num.decInt` of them | rej
+  `num_dec units` -> the integer `Num.decInt` reads | rej
+  `js_emit code`  code = a JSON value in prefix form (0 null, 1 false, 2 true, `3 s k d..` integer (s = 1 negative, k decimal
+              digits), `4 k u..` float with its repr text, `5 k c..` string, `6 n v..` array, `7 n (k c.. v)..` object)
+              -> the characters of `J.emit` (`json.dump(v, separators=(",", ":"))`)
+  `hgr_text units`  -> as `hgr`, from the characters of the file (`HgrText.parseHgrText`: strip / split / int modelled)
+  `txt_read units`  -> the records (`;`-separated unit lists) `Json.readFile` finds line by line | rej
+  `txt_write recs`  -> the characters of the file for the record texts `recs` (`render` of `writeText`; beyond 300
+              records the equal `fileText`, theorem `C06_json_file_chars`) -/
 open Wire C06
 
 def parseKey (s : String) : Option Key :=
@@ -176,8 +187,78 @@ def showDec : Option (List Nat) → String
   | some t => showNats t
   | none => "rej"
 
+def takeN : Nat → List Nat → Option (List Nat × List Nat)
+  | 0, l => some ([], l)
+  | _ + 1, [] => none
+  | k + 1, x :: l => (takeN k l).map (fun (a, r) => (x :: a, r))
+
+mutual
+partial def parseJ : List Nat → Option (Json.J (List Nat) × List Nat)
+  | 0 :: r => some (.null, r)
+  | 1 :: r => some (.bool false, r)
+  | 2 :: r => some (.bool true, r)
+  | 3 :: sg :: k :: r => do
+    let (ds, r) ← takeN k r
+    let n : Nat := ds.foldl (fun (a : Nat) (d : Nat) => 10 * a + d) 0
+    pure (.int (if sg = 1 then - Int.ofNat n else Int.ofNat n), r)
+  | 4 :: k :: r => do let (us, r) ← takeN k r; pure (.flt us, r)
+  | 5 :: k :: r => do let (us, r) ← takeN k r; pure (.str us, r)
+  | 6 :: n :: r => do let (xs, r) ← parseJL n r; pure (.arr xs, r)
+  | 7 :: n :: r => do let (kv, r) ← parseJO n r; pure (.obj kv, r)
+  | _ => none
+partial def parseJL : Nat → List Nat → Option (Json.JL (List Nat) × List Nat)
+  | 0, r => some (.nil, r)
+  | n + 1, r => do
+    let (x, r) ← parseJ r
+    let (xs, r) ← parseJL n r
+    pure (.cons x xs, r)
+partial def parseJO : Nat → List Nat → Option (Json.JO (List Nat) × List Nat)
+  | 0, r => some (.nil, r)
+  | n + 1, k :: r => do
+    let (key, r) ← takeN k r
+    let (v, r) ← parseJ r
+    let (kv, r) ← parseJO n r
+    pure (.cons key v kv, r)
+  | _, _ => none
+end
+
+def jsEmitAnswer (a : String) : String :=
+  match nats? a with
+  | some l =>
+    match parseJ l with
+    | some (j, []) => showNats (Json.J.emit id j)
+    | _ => "bad-op"
+  | none => "bad-op"
+
+def showDecInt : Option Int → String
+  | some i => toString i
+  | none => "rej"
+
+def numAnswer (a : String) : String :=
+  match int? a with
+  | some i => showNats (Num.encInt i) ++ ";" ++ showDecInt (Num.decInt (Num.encInt i))
+  | none => "bad-op"
+
+def txtReadAnswer (a : String) : String :=
+  match nats? a with
+  | some l =>
+    match Json.readFile some l with
+    | some rs => showNatss rs
+    | none => "rej"
+  | none => "bad-op"
+
+def txtWriteAnswer (a : String) : String :=
+  match natss? a with
+  | some rs => showNats (if rs.length ≤ 300 then Json.render id (writeText rs) else Json.fileText id rs)
+  | none => "bad-op"
+
 def step (s : St) : List String → St × String
   | ["frame", l] => (s, frameAnswer l)
+  | ["num", a] => (s, numAnswer a)
+  | ["num_dec", a] => (s, strAnswer (fun l => showDecInt (Num.decInt l)) a)
+  | ["js_emit", a] => (s, jsEmitAnswer a)
+  | ["txt_read", a] => (s, txtReadAnswer a)
+  | ["txt_write", a] => (s, txtWriteAnswer a)
   | ["str_enc", a] => (s, strAnswer (fun l => showNats (Str.encode l) ++ ";" ++ showDec (Str.decode (Str.encode l))) a)
   | ["str_raw", a] => (s, strAnswer (fun l => showNats (Str.encodeRaw l)) a)
   | ["str_dec", a] => (s, strAnswer (fun l => showDec (Str.decode l)) a)
@@ -241,6 +322,13 @@ def step (s : St) : List String → St × String
     match mapAny? (fun c => hgxOf c) s.cur with
     | some c => ({ s with cur := c }, "ok")
     | none => (s, "rej")
+  | ["hgr_text", a] =>
+    match nats? a with
+    | some l =>
+      match HgrText.parseHgrText l with
+      | some c => ({ s with cur := .H c }, showContent c)
+      | none => (s, "rej")
+    | none => (s, "bad-op")
   | "hgr" :: toks =>
     match toks.mapM parseLine with
     | some ls =>
